@@ -662,6 +662,18 @@ def build_evidence(prop, cfg, tier, seed, wall, obligations, discharged, fn_rows
             "trusted_base": ["the reference definition in /verif/replay/src (oracle)"],
             "explanation": "BOUNDED stand-in only: no function of this property is under contract (see DESIGN.md); nothing here is counted as proved",
         }
+        if obligations > 0:
+            # the level claimed stays bounded, but a fragment of the property is under contract: report it
+            # separately (it does not raise the level)
+            cov["deductive_fragment"] = {
+                "obligations": obligations, "discharged": discharged,
+                "functions_under_contract": fn_rows,
+                "checker_cmd": "; ".join(sorted({an["cmd"].replace(os.path.dirname(an["path"]), "<scratch>") for an in unit_results})),
+                "solver_time_ms": {an["unit"]: {"smt": an["smt_ms"], "total": an["total_ms"], "wall_s": round(an["wall"], 2)} for an in unit_results},
+                "vacuity_canaries": canaries,
+                "trusted_base": sorted(set(trusted)),
+            }
+            cov["explanation"] = "BOUNDED stand-in decides this property; in addition a FRAGMENT of it is under contract and verified (deductive_fragment: the functions listed there against their contracts) -- the level claimed is the bounded one"
     return {
         "property_id": prop,
         "tier": tier,
